@@ -177,6 +177,9 @@ func buildPaths(h *expr.HTTPExpr, bodies map[string]map[string]*EndpointBodies, 
 
 			for _, key := range f.RequestPaths {
 				operation := buildFileServerOperation(key, f, api)
+				// Same workaround as for endpoints: "{*name}" is not a valid
+				// path template expression, the parameter is called "name".
+				key = expr.HTTPWildcardRegex.ReplaceAllString(key, "/{$1}")
 				path, ok := paths[key]
 				if !ok {
 					path = new(PathItem)
@@ -371,6 +374,7 @@ func buildFileServerOperation(key string, fs *expr.HTTPFileServerExpr, api *expr
 					Description: "Relative file path",
 					In:          "path",
 					Required:    true,
+					Schema:      &openapi.Schema{Type: openapi.String},
 				},
 			}
 			params = []*ParameterRef{&pref}
